@@ -35,6 +35,19 @@ CHECKS = {
              "are part of the model; crash consistency is outside the property.",
         technique="CrossHair symbolic execution (z3) with symbolic fault index over an executable SQL model",
         ref='4 C06'),
+    'C08': dict(
+        text="Bounded symbolic model checking of the real find_lexicons (Python loop + SQL with GLOB, "
+             "ORDER BY, LIMIT on the SQL model), Wordnet.__init__ and wn.lexicons: for every specifier "
+             "template (*, id, id:*, id:version, *:version, id*, and pairs) and every combination of "
+             "specifier parts / language code drawn by symbolic index from pools of stored and unknown "
+             "values, the selection equals an independent reading of docs/guides/lexicons.rst, incl. the "
+             "error rule.",
+        note=NOTE_COMMON + DB_NOTE + "Three stored lexicons (two versions of one id added in a fixed "
+             "order, ids that are prefixes of each other, dotted versions); arbitrary glob patterns "
+             "beyond the templates are outside. Character-level symbolic strings were abandoned: every "
+             "character-class precondition forks the path.",
+        technique="CrossHair symbolic execution (z3) of the real specifier logic over an executable SQL model",
+        ref='4 C08'),
     'C13': dict(
         text="Bounded symbolic model checking of the real wn.taxonomy functions and Synset.relation_paths: "
              "adjacency bits of the hypernym graph are symbolic, so every DAG on 4 (thorough: 5) nodes in "
